@@ -24,7 +24,7 @@ const (
 
 func PrintDefineInfosForPlugin(infos []string) {
 	for _, info := range infos {
-		fmt.Println(info)
+		fmt.Println(field(info))
 	}
 }
 
